@@ -41,8 +41,38 @@ def build(kind, spec):
                 np.array(spec["covariance"]) if not np.isscalar(spec["covariance"]) else spec["covariance"]]
         return S.NormalDistribution(*args), args
     A = np.array(spec["A"])
-    args = [A, _assignments(A), [_noise(tuple(x)) for x in spec["noise"]]]
+    if spec.get("stateful"):
+        # assignments / noise terms given as callable OBJECTS that own arrays (a fitted linear map, an empirical residual pool):
+        # the constructor's deep copies must make the model independent of later changes to that state
+        args = [A, [None if not (A[:, i] != 0).any() else LinearMap(A[A[:, i] != 0, i]) for i in range(len(A))],
+                [ResidualPool(tuple(x)) for x in spec["noise"]]]
+    else:
+        args = [A, _assignments(A), [_noise(tuple(x)) for x in spec["noise"]]]
     return S.ANM(*args), args
+
+
+class LinearMap:
+    def __init__(self, w):
+        self.w = np.array(w, dtype=float)
+
+    def __call__(self, x):
+        return x @ self.w
+
+
+class ResidualPool:
+    """draws from a fixed pool of residuals with numpy's global generator (like the library's own noise terms)"""
+    def __init__(self, spec):
+        self.pool = np.linspace(-1.0, 1.0, 7) * (1.0 + abs(float(spec[-1]))) + float(spec[1])
+
+    def __call__(self, n):
+        return self.pool[np.random.randint(0, len(self.pool), size=n)]
+
+
+def _scribble_state(args):
+    for a in args:
+        for x in (a if isinstance(a, list) else [a]):
+            if isinstance(x, (LinearMap, ResidualPool)):
+                C.scribble([v for v in vars(x).values() if isinstance(v, np.ndarray)])
 
 
 def canon(r):
@@ -100,6 +130,7 @@ def check_model(kind):
             if viols:
                 break
             if op[0] == "mutate_args":
+                _scribble_state(cargs)         # arrays owned by callable objects handed to the constructor (before the lists are scribbled)
                 C.scribble([a for a in cargs if isinstance(a, (np.ndarray, list))])
                 mutated = True
                 model_ok("after the caller modified the constructor arguments", "step %d" % step)
@@ -273,7 +304,7 @@ def anm_case(p, code, rng):
         else:
             do, shift, noise = rand_interventions(p, rng, lganm=False)
             ops.append(["sample", rng.choice((0, 1, 6)), do, shift, noise, rng.choice((None, 0, 5))])
-    return {"A": A, "noise": noises}, ops
+    return {"A": A, "noise": noises, "stateful": rng.random() < 0.4}, ops
 
 
 def model_worker(task):
